@@ -224,7 +224,7 @@ def leniency_kind(g, m):
 # G7: dedentation matrix - (first line kind) x (continuation line kind x indent)^k x context, exhaustively.
 # The expected tree is computed here from the abstract-syntax rule (a third, independent statement of it).
 
-LINE_KINDS = ("text", "pl", "pltext", "textpl", "blank0", "blanklo", "blankhi", "textsp")
+LINE_KINDS = ("text", "pl", "pltext", "textpl", "blank0", "blanklo", "blankhi", "textsp", "crsp")
 INDENTS = (1, 2, 4)
 
 
@@ -292,6 +292,10 @@ def matrix_pattern(first, lines, base):
         if kind == "textsp":
             line += "  "
             raw.append(("t", "  "))
+        if kind == "crsp":
+            # a line of trimmable text only: a lone CR (text char) and a space
+            line += "\r "
+            raw.append(("t", "\r "))
         src.append(line)
         started = True
     return src, raw
